@@ -32,17 +32,17 @@ Qed.
 Lemma canon_set_eq r gr body cg ind : body <> [] ->
   canon (CSet r gr body cg) ind =
   if negb (has_nl (ctext (CSet r gr body cg)))
-  then CSet r [" "] (canon_inline (fun n => canon n (ind + 2)) body) [" "]
-  else CSet r [" "] (canon_lines (fun n => canon n (ind + 2)) true (ind + 2) body None false)
+  then CSet r (grc r) (canon_inline (fun n => canon n (ind + 2)) body) [" "]
+  else CSet r (grc r) (canon_lines (fun n => canon n (ind + 2)) true (ind + 2) body None false)
                     (LF :: (if spec_q1 body then [] else blank cg) ++ sp ind).
 Proof.
   intros Hb. cbn [canon].
   destruct (negb (has_nl (ctext (CSet r gr body cg)))).
-  - match goal with |- context [CSet r [" "] (?F body) [" "]] =>
+  - match goal with |- context [CSet r (grc r) (?F body) [" "]] =>
       assert (HF : forall l, F l = canon_inline (fun n => canon n (ind + 2)) l) end.
     { induction l as [|[g n] t IH]; [reflexivity|]. cbn [canon_inline]. now rewrite IH. }
     rewrite HF. destruct body; [congruence|reflexivity].
-  - match goal with |- context [CSet r [" "] (?F body None false) _] =>
+  - match goal with |- context [CSet r (grc r) (?F body None false) _] =>
       assert (HF : forall l p sn, F l p sn = canon_lines (fun n => canon n (ind + 2)) true (ind + 2) l p sn) end.
     { induction l as [|[g n] t IH]; intros p sn; [reflexivity|]. cbn [canon_lines]. now rewrite IH. }
     rewrite HF. destruct body; [congruence|reflexivity].
